@@ -138,20 +138,29 @@ def one_case(c, tmp, idx):
     else:
         farmer = xyzpy.Sampler(runner, data_name=os.path.join(d, "crop_side.pkl"), default_combos=dict(sw.combos))
     crop = farmer.Crop(name="fc", parent_dir=d, batchsize=bs)
+    ctor_shuffle = None
+    if kind_f != "Sampler" and rng.random() < 0.2:
+        # the crop constructed directly around the farmer, WITH a shuffle setting; the sow call does not repeat it
+        # (its own default, no shuffling, then decides what is sown AND what is recorded)
+        ctor_shuffle = rng.choice([True, 5])
+        crop = xyzpy.Crop(farmer=farmer, name="fc", parent_dir=d, batchsize=bs, shuffle=ctor_shuffle)
+    rep["ctor_shuffle"] = ctor_shuffle
     bad = []
     try:
         if kind_f == "Sampler":
             np.random.seed(rng.randint(0, 10 ** 6))
             crop.sow_samples(rng.randint(2, 6), verbosity=0)
         elif sw.cases and rng.random() < 0.5:
-            crop.shuffle = shuffle
+            if ctor_shuffle is None:
+                crop.shuffle = shuffle
             # fn_args=None: the runner's own argument order decides, as in a direct run_cases(cases)
             rep["case_fn_args"] = case_fn_args = (None if rng.random() < 0.3 else tuple(sw.case_args))
             crop.sow_cases(case_fn_args, [tuple(x) for x in sw.cases], combos=dict(sw.combos) or None,
                            constants=dict(sow_consts) or None, verbosity=0)
         else:
             crop.sow_combos(dict(sw.combos) if sw.combos else None, cases=sw.cases_dicts() if sw.cases else None,
-                            constants=dict(sow_consts) or None, shuffle=shuffle, verbosity=0)
+                            constants=dict(sow_consts) or None, verbosity=0,
+                            **({} if ctor_shuffle is not None else {"shuffle": shuffle}))
         rep["batches"] = crop.num_batches
         if reload_mode == "process":
             env = dict(os.environ, XV_VERIF=core.VERIF)
